@@ -56,6 +56,22 @@ def run(tier, replay=None):
                 for variant, lines in (("one statement per input", [l for t in texts for l in t.split("\n")]), ("several statements on one line", joined)):
                     lid += 1
                     ls.append({"id": lid, "lines": lines, "doout": doout, "stdin": [], "meta": {"family": fam[0], "variant": variant, "session": s["id"]}})
+    # deep call nesting, in the main context, inside a generator under a for loop, and that inside a function (whatever the machine
+    # does with it -- run it, or refuse it with a runtime error -- it must be clean afterwards); no closures involved
+    defs = ["d = (n) -> if n <= 0 0 else 1 + d(n - 1)", "g = (n) -> yield d(n)", "gg = (n) -> for v <- g(n) yield v",
+            "f = (n) -> {", "t = 0", "for i <- g(n) t = t + i", "t", "}", "ff = (n) -> {", "t = 0", "for i <- gg(n) t = t + i", "return t", "}",
+            "w = (n) -> {", "k = 0", "while k < 2 {", "k = k + 1", "for i <- g(n) k = k + 0 * i", "}", "k", "}"]
+    deep = 0
+    for n in ([40, 12000, 20000] if tier == "quick" else [40, 3000, 9999, 10000, 10001, 12000, 20000, 50000]):
+        for name, uses in (("main context", ["d(%d)"]), ("generator under a top-level for loop", ["for i <- g(%d) i"]), ("nested generators", ["for i <- gg(%d) i"]),
+                           ("generator under a for loop inside a function", ["f(%d)"]), ("nested generators inside a function", ["ff(%d)"]),
+                           ("generator under a for loop inside a while loop inside a function", ["w(%d)"]),
+                           ("twice, with statements between", ["f(%d)", "x = 1", "ff(%d)", "x + 1"])):
+            for doout in (True, False):
+                lid += 1
+                deep += 1
+                ls.append({"id": lid, "lines": defs + [u % n if "%d" in u else u for u in uses] + ["d(3)"], "doout": doout, "stdin": [], "budget": 40000000,
+                           "meta": {"family": "deep call nesting", "variant": "%s, depth %d" % (name, n), "session": 0}})
     res = vlib.run_loop([{k: v for k, v in x.items() if k != "meta"} for x in ls])
     dirty = 0
     for x in ls:
@@ -74,7 +90,7 @@ def run(tier, replay=None):
             dirty += 1
             ck.violation("through the read-eval loop (%s, %s): %s: %s" % ("REPL's way" if x["doout"] else "file mode", x["meta"]["variant"], what, " | ".join(x["lines"])[:300]),
                          {"loop_session": {k: v for k, v in x.items() if k != "meta"}, "result": {k: r.get(k) for k in ("kind", "msg", "residue")}})
-    ck.part("sessions through the real read-eval loop, residue after the session", sessions=len(ls), dirty=dirty)
+    ck.part("sessions through the real read-eval loop, residue after the session", sessions=len(ls), deep_call_nesting=deep, dirty=dirty)
     ck.cov["rule"] = props.c09_rule
     ck.assumptions += ["CalcSem.tla (NoResidue invariant, continuation depth) as evaluated by TLC is the oracle", "Go heap growth not reflected in sp / len(stack) / context count is out of scope"]
     return ck.finish()
